@@ -47,6 +47,8 @@ def _fmt(a) -> str:
                 if len(a) > 3:
                     args += [f"{k}={_fmt(v)}" for k, v in a[3]]
                 return f"{_fmt(a[1])}({', '.join(args)})"
+            if tag == "obj":
+                return f"<{a[1]}@{a[2]}>"
             if tag == "str":
                 return repr(a[1])
             if tag == "const":
